@@ -154,6 +154,7 @@ private:
   SQUIDS_ALWAYS_INLINE SU_vector& assignProxy(const ProxyType& proxy){
     using traits=detail::operation_traits<ProxyType>;
     
+    const SU_vector* robbed=nullptr; //operand whose storage is taken over, if any
     if(!traits::elementwise && !traits::no_alias_target &&
        (components==proxy.suv1.components ||
         (traits::vector_arity==2 && components==proxy.suv2.components))) //beware of aliasing
@@ -174,16 +175,20 @@ private:
         ptr_offset=proxy.suv1.ptr_offset;
         isinit=proxy.suv1.isinit;
         isinit_d=proxy.suv1.isinit_d;
-        if(isinit)
+        if(isinit){
           const_cast<SU_vector&>(proxy.suv1).isinit=false; //complete the theft
+          robbed=&proxy.suv1;
+        }
       }
       else if(proxy.mayStealArg2()){ //if the operation is component-wise and suv2 is an rvalue
         components=proxy.suv2.components; //take suv2's backing storage
         ptr_offset=proxy.suv2.ptr_offset;
         isinit=proxy.suv2.isinit;
         isinit_d=proxy.suv2.isinit_d;
-        if(isinit)
+        if(isinit){
           const_cast<SU_vector&>(proxy.suv2).isinit=false; //complete the theft
+          robbed=&proxy.suv2;
+        }
       }
       else{
         alloc_aligned(dim,size,components,ptr_offset);
@@ -192,6 +197,12 @@ private:
     }
     //evaluate in place
     proxy.compute(detail::vector_wrapper<WrapperType>{dim,components});
+    if(robbed){ //the robbed operand must not keep referring to storage it no longer owns
+      SU_vector& r=const_cast<SU_vector&>(*robbed);
+      r.dim=0;
+      r.size=0;
+      r.components=nullptr;
+    }
     return(*this);
   }
   
@@ -320,9 +331,18 @@ public:
     else
       alloc_aligned(dim,size,components,ptr_offset);
     
-    if(components==proxy.suv1.components && proxy.suv1.isinit)
+    bool robbed=false;
+    if(components==proxy.suv1.components && proxy.suv1.isinit){
       const_cast<SU_vector&>(proxy.suv1).isinit=false; //complete the theft
+      robbed=true;
+    }
     proxy.compute(detail::vector_wrapper<detail::AssignWrapper>{dim,components});
+    if(robbed){ //the robbed operand must not keep referring to storage it no longer owns
+      SU_vector& r=const_cast<SU_vector&>(proxy.suv1);
+      r.dim=0;
+      r.size=0;
+      r.components=nullptr;
+    }
   }
 
   ///\brief Construct an SU_vector from a GSL matrix
